@@ -209,7 +209,7 @@ PROPS["C10"] = dict(
           "from a grammar (five variable shapes, files shared between paths, both sides of MaxMemory/MaxUploadSize, and ten structural "
           "defects incl. 25 hostile map paths); oracle: the recover hook never runs (resolvers never panic here), no panic escapes "
           "ServeHTTP, the answer is a strict-JSON GraphQL response, a private TMPDIR is empty afterwards, oversized bodies run nothing, "
-          "and well-formed uploads deliver exact bytes/filename/content type to every mapped path through independently readable readers",
+          "and well-formed uploads deliver exact bytes/filename/content type to every mapped path through independently readable readers; structural mutation of a valid map path of the very request (index equal to the list length, shorter lists, wrong kinds, extra / missing segments); and websocket sessions fed frames of any type (text, binary, ping, pong, close) and payload (protocol messages with members of the wrong JSON type, null, truncated, nested thousands deep, random bytes, one byte flipped) under both subprotocols, before and after the handshake: the recover hook never runs, the process lives, every server frame is a JSON message object and a fresh session is acknowledged afterwards",
     note="websocket frames are covered by C11's state machine; native byte-level fuzz targets are not part of the quick tier",
     technique="grammar-based and mutation-based property testing (rapid) with a crash/recover-hook/round-trip oracle",
     rule="evaluation = one request; non-trivial = a request with a structural defect that reaches the transport's decoding stage, or a "
